@@ -132,7 +132,9 @@ reftable_new_writer(ssize_t (*writer_func)(void *, const void *, size_t),
 		abort();
 	}
 	wp->last_key = reftable_empty_strbuf;
-	wp->block = reftable_calloc(opts->block_size);
+	/* Log blocks are deflated in place; for small or incompressible
+	 * blocks the zlib stream is larger than the block. */
+	wp->block = reftable_calloc(compressBound(opts->block_size));
 	wp->write = writer_func;
 	wp->write_arg = writer_arg;
 	wp->opts = *opts;
